@@ -364,6 +364,7 @@ func (w *World) Run(settle time.Duration, stop func() bool) RunResult {
 		if running {
 			// The token holder is durably blocked inside uninstrumented code (e.g. time.Sleep in a library).
 			<-w.wake
+			w.flushTimers()
 			continue
 		}
 		var ext []int
@@ -392,6 +393,7 @@ func (w *World) Run(settle time.Duration, stop func() bool) RunResult {
 				tm.Stop()
 			case <-tm.C:
 			}
+			w.flushTimers()
 			continue
 		}
 		w.Steps++
@@ -420,6 +422,18 @@ func (w *World) Run(settle time.Duration, stop func() bool) RunResult {
 		}
 		idleSince = time.Now()
 	}
+}
+
+// flushTimers is called after the fake clock may have moved (the root was blocked). Timers live on per-P
+// heaps: several timers due at the same fake instant are fired by whichever P gets to them, and
+// synctest.Wait can return while some of them have not fired yet, so the set of runnable tasks seen by the
+// scheduler would depend on GOMAXPROCS. The fake clock cannot move past a timer that is due: sleeping for
+// one nanosecond forces every timer due at the current instant to fire first.
+func (w *World) flushTimers() {
+	if w.Parallel {
+		return
+	}
+	time.Sleep(time.Nanosecond)
 }
 
 // parallelRound (race mode) releases a seed-chosen non-empty subset of runnable tasks at once.
